@@ -3,3 +3,30 @@ package dep2
 type T struct{ V int }
 
 func U() *T { return &T{} }
+
+func W() *T { return nil }
+
+func X(b bool) *T {
+	if b {
+		return &T{}
+	}
+	return nil
+}
+
+// nilable(F)
+type Q struct{ F *T }
+
+func (Q) Get(b bool) *T {
+	if b {
+		return &T{}
+	}
+	return nil
+}
+
+func NewQ() *Q {
+	q := &Q{}
+	q.F = nil
+	return q
+}
+
+var GV *T = nil
